@@ -1,5 +1,5 @@
 (* C08 — from the TEXT of a .meta file to the geometry: composition of C09's model of
-   spikeglx.read_meta_data (coq/C09/Model.v: read_meta, version, lookup, py_int) with the
+   spikeglx.read_meta_data (coq/C09/Model.v, written out as IBL.C09.Model.x — a module alias would defeat monolithic extraction: read_meta, version, lookup, py_int) with the
    tokeniser (Scan.v) and the geometry model (Model.v).  Definitions only.
 
    spikeglx.read_geometry(file)            = geometry_of_file text true   (first component)
@@ -9,15 +9,14 @@ From IBL.C09 Require Model.
 From IBL.C08 Require Import Model Scan.
 Import ListNotations.
 Open Scope Z_scope.
-Module M9 := IBL.C09.Model.
 
 (* _get_neuropixel_major_version_from_meta: MAJOR_VERSION[version] *)
-Definition gen_of_vers (v : M9.vers) : gen :=
+Definition gen_of_vers (v : IBL.C09.Model.vers) : gen :=
   match v with
-  | M9.V3A | M9.V3B1 | M9.V3B2 => NP1
-  | M9.VNP21 => NP21
-  | M9.VNP24 => NP24
-  | M9.VNPultra => NPU
+  | IBL.C09.Model.V3A | IBL.C09.Model.V3B1 | IBL.C09.Model.V3B2 => NP1
+  | IBL.C09.Model.VNP21 => NP21
+  | IBL.C09.Model.VNP24 => NP24
+  | IBL.C09.Model.VNPultra => NPU
   end.
 
 (* _map_channels_from_meta(meta) *)
@@ -27,32 +26,32 @@ Inductive cmap :=
 | Table (e : encoding) (sites : list site)
 | MapError.                               (* an exception (ValueError on an empty field, TypeError on a
                                              numeric value under the key) *)
-Definition map_value (e : encoding) (v : M9.value) : cmap :=
+Definition map_value (e : encoding) (v : IBL.C09.Model.value) : cmap :=
   match v with
-  | M9.VStr s => match parse_map s with
+  | IBL.C09.Model.VStr s => match parse_map s with
                  | None => MapError
                  | Some [] => Empty
                  | Some sites => Table e sites
                  end
   | _ => MapError
   end.
-Definition kShankMap := M9.lit "snsShankMap".
-Definition kGeomMap := M9.lit "snsGeomMap".
-Definition kSplit := M9.lit "NP2.4_shank".
-Definition channel_map (d : M9.dict) : cmap :=
-  match M9.lookup kShankMap d with
+Definition kShankMap := IBL.C09.Model.lit "snsShankMap".
+Definition kGeomMap := IBL.C09.Model.lit "snsGeomMap".
+Definition kSplit := IBL.C09.Model.lit "NP2.4_shank".
+Definition channel_map (d : IBL.C09.Model.dict) : cmap :=
+  match IBL.C09.Model.lookup kShankMap d with
   | Some v => map_value ShankMap v
-  | None => match M9.lookup kGeomMap d with
+  | None => match IBL.C09.Model.lookup kGeomMap d with
             | Some v => map_value GeomMap v
             | None => NoKey
             end
   end.
 
 (* int(meta_data["NP2.4_shank"]) when the key exists: None = exception *)
-Definition split_key (d : M9.dict) : option (option Z) :=
-  match M9.lookup kSplit d with
+Definition split_key (d : IBL.C09.Model.dict) : option (option Z) :=
+  match IBL.C09.Model.lookup kSplit d with
   | None => Some None
-  | Some v => option_map Some (M9.py_int v)
+  | Some v => option_map Some (IBL.C09.Model.py_int v)
   end.
 
 Inductive outcome :=
@@ -65,16 +64,16 @@ Definition of_opt (o : option (geom * list Z)) : outcome :=
   match o with Some (t, inds) => Geometry t inds | None => Outside end.
 
 (* geometry_from_meta(meta, return_index=True, sort=sort) *)
-Definition geometry_of_dict (d : M9.dict) (sort : bool) : outcome :=
+Definition geometry_of_dict (d : IBL.C09.Model.dict) (sort : bool) : outcome :=
   match channel_map d with
   | MapError => Raise
   | NoKey | Empty =>
-      match M9.version d with
+      match IBL.C09.Model.version d with
       | None => NoGeometry
       | Some v => of_opt (geometry_default (gen_of_vers v))
       end
   | Table e sites =>
-      match M9.version d with
+      match IBL.C09.Model.version d with
       | None => Raise                     (* CHANNEL_GRID[None]: KeyError *)
       | Some v =>
           match split_key d with
@@ -84,27 +83,27 @@ Definition geometry_of_dict (d : M9.dict) (sort : bool) : outcome :=
       end
   end.
 
-Definition geometry_of_file (text : M9.str) (sort : bool) : outcome :=
-  match M9.read_meta text with
+Definition geometry_of_file (text : IBL.C09.Model.str) (sort : bool) : outcome :=
+  match IBL.C09.Model.read_meta text with
   | None => Raise
   | Some d => geometry_of_dict d sort
   end.
 
 (* ---- the text seen line by line ---- *)
 (* value text of the last line whose key (tildes removed) is k *)
-Fixpoint last_value (k : M9.str) (ls : list (M9.str * M9.str)) : option M9.str :=
+Fixpoint last_value (k : IBL.C09.Model.str) (ls : list (IBL.C09.Model.str * IBL.C09.Model.str)) : option IBL.C09.Model.str :=
   match ls with
   | [] => None
   | (k', v) :: r =>
       match last_value k r with
       | Some x => Some x
-      | None => if M9.str_eq_dec k (M9.untilde k') then Some v else None
+      | None => if IBL.C09.Model.str_eq_dec k (IBL.C09.Model.untilde k') then Some v else None
       end
   end.
 (* the lines as an association list, last line first, values parsed one by one *)
-Definition text_entry (kv : M9.str * M9.str) : M9.str * M9.value :=
-  (M9.untilde (fst kv), match M9.parse_value (snd kv) with Some x => x | None => M9.VNone end).
-Definition text_dict (ls : list (M9.str * M9.str)) : M9.dict := rev (map text_entry ls).
+Definition text_entry (kv : IBL.C09.Model.str * IBL.C09.Model.str) : IBL.C09.Model.str * IBL.C09.Model.value :=
+  (IBL.C09.Model.untilde (fst kv), match IBL.C09.Model.parse_value (snd kv) with Some x => x | None => IBL.C09.Model.VNone end).
+Definition text_dict (ls : list (IBL.C09.Model.str * IBL.C09.Model.str)) : IBL.C09.Model.dict := rev (map text_entry ls).
 (* the file: every line "key=value" terminated by a line feed *)
-Definition file_of (ls : list (M9.str * M9.str)) : M9.str :=
+Definition file_of (ls : list (IBL.C09.Model.str * IBL.C09.Model.str)) : IBL.C09.Model.str :=
   concat (map (fun kv => fst kv ++ 61 :: snd kv ++ [10]) ls).
